@@ -8,7 +8,7 @@ git checkout -q -- diskcache
 clean_rc=0; /venv/bin/python demo$k.py >/tmp/wt/seed_clean.log 2>&1 || clean_rc=$?
 git apply patch$k.diff || { echo "patch does not apply"; exit 2; }
 mut_rc=0; /venv/bin/python demo$k.py >/tmp/wt/seed_mut.log 2>&1 || mut_rc=$?
-/venv/bin/python -m pytest -q -p no:cacheprovider --timeout=900 -n 8 >/tmp/wt/seed_tests.log 2>&1
+/venv/bin/python -m pytest -q -p no:cacheprovider --timeout=900 -n 4 >/tmp/wt/seed_tests.log 2>&1
 summary=$(grep -E "passed|failed" /tmp/wt/seed_tests.log | tail -1)
 if echo "$summary" | grep -q failed; then
   failed=$(grep ^FAILED /tmp/wt/seed_tests.log | sed 's/FAILED //; s/ - .*//' | tr '\n' ' ')
